@@ -8,6 +8,7 @@ mod c01_tcp;
 mod c01_udp;
 pub mod c14;
 pub mod c17;
+pub mod c18w;
 pub mod c19;
 
 pub fn dispatch(args: &Args) -> Report {
@@ -15,6 +16,7 @@ pub fn dispatch(args: &Args) -> Report {
         "C01" => c01::run(args),
         "C14" => c14::run(args),
         "C17" => c17::run(args),
+        "C18W" => c18w::run(args),
         "C19" => c19::run(args),
         other => panic!("no driver for {other}"),
     }
